@@ -944,6 +944,13 @@ def _run_rejection(cfg) -> Dict[str, Any]:
 
 
 def run_one(ctl: explorer.Ctl, cfg: Dict[str, Any]) -> Dict[str, Any]:
+    # every part runs under the deterministic uuid stub: an id the library generates on its own
+    # (also where it should not) is then reproducible, so the observation and any violation replay exactly
+    with sched.patched_uuid():
+        return _run_part(cfg)
+
+
+def _run_part(cfg: Dict[str, Any]) -> Dict[str, Any]:
     part = cfg["part"]
     if part == "ctor":
         return _run_ctor(cfg)
